@@ -287,6 +287,31 @@ func ruleDequeIndexDiscipline(c *Ctx, r *R) {
 						}
 					}
 				}
+				if !okEnd {
+					// the index is a parameter of an unexported helper (pushFirst(idx, item)): what every call site passes
+					if p, isP := resolveVal(x.Val).(*ssa.Parameter); isP && p.Parent() == fn && !token.IsExported(fn.Name()) && fn.Parent() == nil {
+						idx := -1
+						for i, q := range fn.Params {
+							if q == p {
+								idx = i
+							}
+						}
+						sites := callCommonsOf(c, fn)
+						okEnd = idx >= 0 && len(sites) > 0
+						for _, cc := range sites {
+							if idx >= len(cc.Args) {
+								okEnd = false
+								break
+							}
+							for _, a := range sxAlternatives(symOf(cc.Args[idx], provEnv{}), "a") {
+								_, am := a.modLen("a")
+								if !(a.op == "const" || a.fieldSuffix("front") || a.fieldSuffix("back") || am) {
+									okEnd = false
+								}
+							}
+						}
+					}
+				}
 				r.ok(okEnd, key, x.Pos(), f+" is assigned "+e.String()+", which is neither a constant, the other end, nor reduced modulo len(d.a): the index can leave the buffer")
 			case *ssa.IndexAddr:
 				fld, base, ok := rootField(x.X)
